@@ -5,6 +5,8 @@
 #include <new>
 #include <csignal>
 #include <sys/wait.h>
+#include <fcntl.h>
+#include <sanitizer/common_interface_defs.h>
 #include <unordered_map>
 #if defined(__SANITIZE_ADDRESS__)
 #include <sanitizer/lsan_interface.h>
@@ -116,6 +118,9 @@ CallResult forked(const std::function<int()>& fn, bool leak_check) {
   if (pid < 0) { close(fd[0]); close(fd[1]); cr.crashed = true; cr.exc = "fork failed"; return cr; }
   if (pid == 0) {
     close(fd[0]);
+#if defined(__SANITIZE_ADDRESS__)
+    { int nfd = open("/dev/null", O_WRONLY); if (nfd >= 0) __sanitizer_set_report_fd((void*) (long) nfd); }   // the verdict travels through the pipe
+#endif
     signal(SIGSEGV, child_sig); signal(SIGBUS, child_sig); signal(SIGABRT, child_sig); signal(SIGFPE, child_sig); signal(SIGILL, child_sig);
     alarm(20);
     CallResult c = guarded(fn, 0);
@@ -339,7 +344,7 @@ int mk_domain(Case& c, int type, int n, int topo) {
   if (ti.cat == CAT_PSET) { int t2; disjunct_of(nm, t2); nnc = t2 == 2; }
   void* h = 0; int idx = -1;
   int variant = hx::rnd(0, 99);
-  if (nm == "Grid" && variant < 25) variant += 40;   // Grid(cs) only accepts equalities
+  if (nm.find("Grid") != std::string::npos && variant < 25) variant += 40;   // Grid(cs) only accepts equalities
   if (variant < 25) {
     // from a constraint system of interval / bounded-difference constraints (accepted by every domain)
     shape_allows_bd = nm.find("Box") == std::string::npos;     // boxes only accept interval constraints
